@@ -7,6 +7,10 @@ from metapype.model.node import Node  # noqa: E402
 
 ALPH = ["a", "b", "c", "X", "Z", "0", "7", " ", " ", "\t", "\n", "\xa0", "<", ">", "&", "\"", "'", "\\", "/", ":", "{", "}", "é", "ß", "Ж",
         "湖", "\U0001F600", "​", "e\u0301", "\u212b", "\u2126", "\u1100\u1161", "\ufb01", "\x00", "\x01", "\x1f", "\x7f", "�", " ", "١", "_", "-", ".", "\r"]
+# the rest of the ASCII punctuation, bidirectional controls, a byte-order mark and a soft hyphen inside text, and values that are
+# special for Python rather than for the model
+ALPH += ["+", "?", "@", "!", "$", "*", "(", ")", ",", "|", "~", "^", "`", "%", "#", ";", "=", "[", "]", "\u200f", "\u202e", "\ufeff", "\xad",
+         "None", "True", "nan", "1_000", "-0", "%20"]
 XML_NAME_START = list("abcxyzABC_") + ["é", "Ж", "湖"]
 XML_NAME_CHARS = XML_NAME_START + list("0123456789-.")
 NAMES = ["dataset", "title", "creator", "para", "a", "b", "stmml:unit", "", "名前", "x y"]
@@ -16,6 +20,8 @@ URIS = ["https://eml.ecoinformatics.org/eml-2.2.0", "http://www.xml-cml.org/sche
 
 
 def ustr(rng, maxlen=10, alph=ALPH):
+    if maxlen >= 8 and rng.random() < 0.003:
+        return rng.choice(["a", "é", "a b "]) * rng.choice([255, 256, 257, 4096])     # sizes that buffers and caches care about
     return "".join(rng.choice(alph) for _ in range(rng.randint(0, maxlen)))
 
 
